@@ -58,3 +58,62 @@ def same_ids_other_chemicals(w, cfg):
     g3 = np.asarray(m3(x[::-1].copy(), T), float)
     w.ensure('value independent of the position in the list', w.all_eq(list(g3[::-1]), list(g2)))
     w.canary('canary', w.eq(g2[0], gref[0] + 1.))
+
+
+# ----------------------------------------------------------------------------------------------------------------------
+# Added after the seeded change C16_7 was missed: the pure-chemical limit on chemicals whose OWN functional groups include
+# main-group pairs without tabulated interaction parameters (halogenated, sulphur, nitro, ... compounds).  The existing limit
+# groups use six data-base chemicals whose group pairs are all tabulated.
+
+SWEEP = ['Halothane', '2,2-Dichloro-1,1,1-trifluoroethane', 'allyl mercaptan', 'Vanillin', 'Chloroform', 'Dichloromethane', 'Carbon tetrachloride',
+         'Bromoethane', 'Iodoethane', 'Nitromethane', 'Nitrobenzene', 'Acetonitrile', 'Dimethyl sulfoxide', 'Thiophene', 'Pyridine', 'Furfural',
+         'Dimethylformamide', 'Acrylonitrile', 'Chlorobenzene', 'Benzyl chloride', 'Epichlorohydrin', 'Trichloroethylene', 'Vinyl chloride',
+         '1,2-Dichloroethane', 'Ethanethiol', 'Dimethyl sulfide', 'Morpholine', 'Aniline', 'Triethylamine', 'Diethylamine', 'Acetic acid',
+         'Ethyl acetate', 'Diethyl ether', 'Tetrahydrofuran', '1,4-Dioxane', 'Acetone', 'Phenol', 'Glycerol', 'Ethylene glycol', 'Lactic acid',
+         'Methyl methacrylate', 'Styrene', 'Cyclohexane', 'Toluene', '1-Octanol', 'Formic acid', 'Acetaldehyde', 'Carbon disulfide',
+         'Chlorodifluoromethane', '1,1,1,2-Tetrafluoroethane', 'Perfluorohexane', 'Trifluoroacetic acid', '2-Chloroethanol', 'N-Methyl-2-pyrrolidone']
+
+
+def sweep_configs(tier):
+    n = 3 if tier == 'quick' else 1          # chemicals per configuration (quick: 18 configurations of 3; thorough: one each, more temperatures)
+    out = []
+    for k in range(0, len(SWEEP), n):
+        for model in MODELS:
+            out.append({'name': f'{model};{"+".join(SWEEP[k:k + n])}', 'model': model, 'IDs': SWEEP[k:k + n], 'Ts': [298.15, 420.] if tier == 'quick' else [250., 298.15, 350., 450.]})
+    return out
+
+
+@group('C16/B_limit_pure_sweep', configs=sweep_configs, mode='B',
+       functions=['thermosteam.equilibrium.activity_coefficients:GroupActivityCoefficients.__new__',
+                  'thermosteam.equilibrium.activity_coefficients:GroupActivityCoefficients.__call__',
+                  'thermosteam.equilibrium.activity_coefficients:get_interaction', 'thermosteam.equilibrium.activity_coefficients:group_activity_coefficients'],
+       notes='54 data-base chemicals chosen for unusual functional groups (halogen, sulphur, nitro, nitrile, amine, fluorinated ...; those the bundled data base does not know or that '
+             'carry no groups for the model are skipped) x UNIFAC and Dortmund, each mixed with Water and Hexane; gamma_i at x_i = 1 and at x_i = 1 - 2e-7 must be 1 within 1e-4, through '
+             'the model object and through gamma.f(x, T, *gamma.args)')
+def limit_pure_sweep(w, cfg):
+    Model = getattr(eq, MODELS[cfg['model']])
+    checked = 0
+    for ID in cfg['IDs']:
+        try:
+            chem = tmo.Chemical(ID, cache=False)
+        except Exception:
+            continue                                   # not in the bundled data base
+        chems = [tmo.Chemical('Water'), chem, tmo.Chemical('Hexane')]
+        try:
+            model = Model(chems)
+        except Exception as e:
+            w.ensure(f'{ID}: a model can be built for a mixture containing it', False, exception=f'{type(e).__name__}: {e}'); continue
+        if not isinstance(model, Model):
+            continue                                   # fewer than two chemicals with groups: the ideal model (checked elsewhere)
+        for T in cfg['Ts']:
+            for i in range(3):
+                for eps in (0., 1e-7):
+                    x = np.full(3, eps); x[i] = 1. - 2 * eps
+                    g = np.asarray(model(x.copy(), T), float)
+                    gf = np.asarray(model.f(x.copy(), T, *model.args), float)
+                    w.ensure(f'{ID}: gamma of chemical #{i} of (Water, it, Hexane) tends to 1 as its mole fraction tends to 1', abs(g[i] - 1.) < 1e-4,
+                             T=T, eps=eps, gamma=float(g[i]))
+                    w.ensure(f'{ID}: the functional form gives the same limit', abs(gf[i] - 1.) < 1e-4, T=T, eps=eps, gamma=float(gf[i]))
+                    checked += 1
+    w.note(evaluations=checked)
+    w.ensure('the configuration was run', True)
